@@ -102,10 +102,45 @@ def debug_id_from_build_id(b):
 _GENELF_KINDS = ["md5", "sha1", "0x1122334455667788", "0x00112233445566778899aabbccddeeff", "0x" + "a1b2c3d4" * 6, "0x" + "0f" * 32]
 
 
+def noid_text(k, v):
+    """the .text bytes of the generated ELF files WITHOUT a build id (kind "none-<v>"): 0x1400 + 64 k bytes; builds of one k differ in a single byte
+    at offset 0x1000 + 16 v + 1 for odd v - beyond the first 4096 bytes, so such builds carry the same id - and at offset 0xff8 + v for even v - within
+    the first 4096 bytes but, the section starting 0x10 or 0x20 into a page, beyond the end of the section's first page"""
+    n = 0x1400 + 64 * (k % 8)
+    import hashlib
+    b = bytearray(b"".join(hashlib.sha256(b"noid %d %d" % (k, j)).digest() for j in range(n // 32 + 1))[:n])
+    if v:
+        b[(0x1000 + 16 * v + 1) if v % 2 else (0xff8 + v)] ^= 0x5A
+    return bytes(b)
+
+
+def text_hash_id(text):
+    """the debug id of an object without build id, UUID or PDB info: the first min(size, 4096) bytes of .text XOR-folded into 16 bytes, read like a build id"""
+    h = bytearray(16)
+    for i, byte in enumerate(text[:4096]):
+        h[i % 16] ^= byte
+    return debug_id_from_build_id(bytes(h))
+
+
 def build_genelf(path, k, kind):
-    """a tiny shared object linked with `ld --build-id=<kind>`: build ids of 16 bytes (md5, explicit), 20 (sha1), 8, 24 and 32 bytes"""
+    """a tiny shared object linked with `ld --build-id=<kind>`: build ids of 16 bytes (md5, explicit), 20 (sha1), 8, 24 and 32 bytes; kind "none-<v>":
+    no build id at all, a .text of more than 4096 bytes (noid_text) that starts a few bytes into a page (an .init section precedes it)"""
     src = path + ".s"
     obj = path + ".o"
+    if kind.startswith("none-"):
+        t = noid_text(k, int(kind[5:]))
+        open(src, "w").write(".section .init,\"ax\",@progbits\n  .fill %d, 1, 0x90\n.text\n.globl noid_fn_%d\n.type noid_fn_%d, @function\nnoid_fn_%d:\n" % (16 * (1 + k % 2), k, k, k)
+                             + "".join("  .byte %s\n" % ",".join(str(x) for x in t[i:i + 32]) for i in range(0, len(t), 32)) + ".size noid_fn_%d, .-noid_fn_%d\n" % (k, k))
+        try:
+            if subprocess.run(["gcc", "-c", src, "-o", obj], capture_output=True).returncode != 0:
+                return False
+            return subprocess.run(["ld", "-shared", obj, "-o", path, "--build-id=none"], capture_output=True).returncode == 0
+        finally:
+            for f in (src, obj):
+                try:
+                    os.remove(f)
+                except OSError:
+                    pass
     open(src, "w").write(".text\n.globl genelf_fn_%d\n.type genelf_fn_%d, @function\ngenelf_fn_%d:\n  .fill %d, 1, 0x90\n  ret\n.size genelf_fn_%d, .-genelf_fn_%d\n" % (k, k, k, 8 + k % 40, k, k))
     try:
         if subprocess.run(["gcc", "-c", src, "-o", obj], capture_output=True).returncode != 0:
@@ -130,6 +165,21 @@ def elf_note_ids(path):
         return None
     loc = elf_build_id_offset(data)
     if loc is None:
+        # no build id: the id is made from the first 4096 bytes of .text (ELF64 section table read here), and there is no code id
+        try:
+            if data[4] != 2:
+                return None
+            shoff, = struct.unpack_from("<Q", data, 0x28)
+            shentsize, shnum, shstrndx = struct.unpack_from("<HHH", data, 0x3A)
+            stroff, = struct.unpack_from("<Q", data, shoff + shstrndx * shentsize + 0x18)
+            for i in range(shnum):
+                o = shoff + i * shentsize
+                name, shtype = struct.unpack_from("<II", data, o)
+                off, size = struct.unpack_from("<QQ", data, o + 0x18)
+                if data[stroff + name:stroff + name + 6] == b".text\0" and shtype == 1:
+                    return text_hash_id(data[off:off + min(size, 4096)]), None
+        except (struct.error, IndexError):
+            pass
         return None
     b = data[loc[0]:loc[0] + loc[1]]
     if len(b) != loc[1]:
@@ -364,7 +414,7 @@ def gen(tier, rng, scale):
                 cs.append(dyld_cand(present=rng.chance(3, 4)) if rng.chance(2, 3) else "macho:" + rng.choice(DYLD_UUIDS))
                 continue
             if r >= 90:
-                cs.append("genelf:%d:%s" % (rng.below(6), rng.choice(_GENELF_KINDS)))
+                cs.append("genelf:%d:%s" % (rng.below(6), rng.choice(_GENELF_KINDS + ["none-0", "none-1", "none-2", "none-4"])))
                 continue
             if r < 30:
                 cs.append("fx:" + rng.choice(files))
@@ -423,6 +473,15 @@ def gen(tier, rng, scale):
                 tdesc = "genelf:%d:0x%s" % (rng.below(6), bid)
                 if rng.chance(2, 3):
                     dy_extra.append("genelf:%d:0x%s" % (rng.below(6), req[:32].lower()))
+            if q == 7:
+                # an ELF file without any build id: its id is a hash of the first 4096 bytes of .text.  Decoys: the same code with one byte changed inside
+                # those 4096 bytes (another id: another build) - the changed byte lying beyond the end of the section's first page
+                k_, v_ = rng.below(6), rng.choice([0, 2, 4, 6])
+                req = text_hash_id(noid_text(k_, v_))
+                target = None
+                tdesc = "genelf:%d:none-%d" % (k_, v_)
+                for w_ in [w for w in (0, 2, 4, 6) if w != v_][:rng.range(1, 3)]:
+                    dy_extra.append("genelf:%d:none-%d" % (k_, w_))
             if q in (4, 5):
                 # images of a dyld shared cache (CandidatePathInfo::InDyldCache): the requested build is the image the cache holds under that install path
                 # (q = 4) or a file on disk while the cache holds ANOTHER build under the same path (q = 5, a recording made before a system update)
@@ -732,7 +791,7 @@ def evaluate(cases):
                             wrong = (t_, s_, nid)
                     else:
                         d_, cid_ = s_[3:].split(":")
-                        if (d_ != "-" and d_.upper() != nid[0]) or (cid_ != "-" and cid_.lower() != nid[1]):
+                        if (d_ != "-" and d_.upper() != nid[0]) or (cid_ != "-" and (nid[1] is None or cid_.lower() != nid[1])):
                             wrong = (t_, s_, nid)
             if wrong:
                 stats["note_id_mismatch"] = stats.get("note_id_mismatch", 0) + 1
